@@ -23,7 +23,9 @@ structure Tuple where
   pub : List Nat                  -- public path ("" = not written)
   data : List (List Nat)          -- `piece.data` of every piece, or the joiner's bytes as one item
   sm : SMPieces
+  smMode : Option Nat             -- `c.options.SourceMap`, written only when the map has content
   legal : List Nat                -- external legal comments ("" = not written)
+  legalMode : Option Nat          -- `c.options.LegalComments`, written only behind the legal comments
 deriving Repr, DecidableEq
 
 /-- an item that is only written when it is not empty -/
@@ -32,12 +34,27 @@ def optItem (b : List Nat) : List (List Nat) := if b = [] then [] else [b]
 def encFile (f : FileEntry) : List Nat :=
   lenPrefixed f.ns ++ (lenPrefixed f.path ++ (le32 f.pBegin ++ le32 f.pEnd))
 
-/-- the length-prefixed items that follow the file entries -/
+/-- the length-prefixed items that follow the file entries, up to the source-map suffix -/
 def items (t : Tuple) : List (List Nat) :=
-  t.tmpl ++ (optItem t.pub ++ (t.data ++ ([t.sm.pfx, t.sm.mappings, t.sm.sfx] ++ optItem t.legal)))
+  t.tmpl ++ (optItem t.pub ++ (t.data ++ [t.sm.pfx, t.sm.mappings, t.sm.sfx]))
+
+/-- a `hashWriteUint32` that is only done under a condition -/
+def modeBytes : Option Nat → List Nat
+  | none => []
+  | some m => le32 m
+
+/-- what follows the source-map suffix: the source-map mode, the legal comments, their mode -/
+def tailBytes (t : Tuple) : List Nat :=
+  modeBytes t.smMode ++ (Pieces.preimage (optItem t.legal) ++ modeBytes t.legalMode)
 
 /-- the byte string that represents a tuple -/
-def encode (t : Tuple) : List Nat := t.files.flatMap encFile ++ Pieces.preimage (items t)
+def encode (t : Tuple) : List Nat :=
+  t.files.flatMap encFile ++ (Pieces.preimage (items t) ++ tailBytes t)
+
+/-- the optional fields are present exactly when the code writes them -/
+structure Tuple.WF (t : Tuple) : Prop where
+  sm : t.smMode.isSome = t.sm.hasContent
+  legal : t.legalMode.isSome = true ↔ t.legal ≠ []
 
 def entryOf (files : List FileInfo) (pr : PartRange) : Option FileEntry :=
   match files[pr.sourceIndex]? with
@@ -71,7 +88,18 @@ def tupleOf (ctx : Ctx) (c : Chunk) : Option Tuple :=
   | none => none
   | some es =>
     some { files := es, tmpl := c.finalTemplate, pub := ctx.publicPath, data := outData c.out,
-           sm := c.outputSourceMap, legal := c.externalLegalComments }
+           sm := c.outputSourceMap,
+           smMode := if c.outputSourceMap.hasContent then some ctx.sourceMapMode else none,
+           legal := c.externalLegalComments,
+           legalMode := if c.externalLegalComments = [] then none else some ctx.legalMode }
+
+theorem tupleOf_wf (ctx : Ctx) (c : Chunk) (t : Tuple) (h : tupleOf ctx c = some t) : t.WF := by
+  unfold tupleOf at h
+  cases he : fileEntries ctx c <;> rw [he] at h <;> simp only [reduceCtorEq, Option.some.injEq] at h
+  subst h
+  constructor
+  · simp only; split <;> simp_all
+  · simp only; split <;> simp_all
 
 -- ---------------------------------------------------------------- preimage = encode ∘ tupleOf
 theorem flatten_wLP (b : List Nat) : (wLP b).flatten = lenPrefixed b := by
@@ -131,13 +159,19 @@ theorem optItem_pub (b : List Nat) :
   unfold optItem
   by_cases h : b = [] <;> simp [h, flatten_wLP, Pieces.preimage]
 
-theorem optItem_legal (b : List Nat) :
-    (if b.length > 0 then wLP b else []).flatten = Pieces.preimage (optItem b) := by
+theorem smMode_flatten (sm : SMPieces) (m : Nat) :
+    (if sm.hasContent = true then wU32 m else []).flatten
+      = modeBytes (if sm.hasContent = true then some m else none) := by
+  split <;> simp [wU32, modeBytes]
+
+theorem legal_flatten (b : List Nat) (l : Nat) :
+    (if b.length > 0 then wLP b ++ wU32 l else []).flatten
+      = Pieces.preimage (optItem b) ++ modeBytes (if b = [] then none else some l) := by
   unfold optItem
   by_cases h : b = []
-  · simp [h, Pieces.preimage]
+  · simp [h, Pieces.preimage, modeBytes]
   · have : b.length > 0 := List.length_pos_iff.2 h
-    simp [h, this, flatten_wLP, Pieces.preimage]
+    simp [h, this, flatten_wLP, Pieces.preimage, modeBytes, wU32]
 
 /-- the bytes fed to the hash are the encoding of the chunk's tuple -/
 theorem preimage_eq_encode (ctx : Ctx) (c : Chunk) :
@@ -155,8 +189,8 @@ theorem preimage_eq_encode (ctx : Ctx) (c : Chunk) :
     | some es =>
       rw [hw, he] at hfiles
       simp only [Option.map_some, Option.some.injEq] at hfiles ⊢
-      simp only [encode, items, List.flatten_append, hfiles, flatten_flatMap_wLP, flatten_wLP,
-        outWrites_flatten, optItem_pub, optItem_legal, preimage_append, List.append_assoc]
+      simp only [encode, items, tailBytes, List.flatten_append, hfiles, flatten_flatMap_wLP, flatten_wLP,
+        outWrites_flatten, optItem_pub, smMode_flatten, legal_flatten, preimage_append, List.append_assoc]
       simp [Pieces.preimage]
 
 end EsbuildModel.IsoHash
